@@ -23,6 +23,7 @@ import YalafiVerif.Proofs.Scanner
 import YalafiVerif.Proofs.Lines
 import YalafiVerif.Properties.PlainVanishStmt
 import YalafiVerif.Properties.PlainMixStmt
+import YalafiVerif.Properties.PlainMix2Stmt
 namespace Yalafi
 
 theorem C05_scanSpace_kind (start : Nat) (rest : Str) :
